@@ -189,6 +189,7 @@ class Reporter:
         self.assumptions = []
         self.tlc_cmds = []
         self.parts = {}
+        shutil.rmtree(os.path.join(VERIF, "replays", pid), ignore_errors=True)
 
     # -- coverage accounting
     def add_tlc(self, res, name):
